@@ -273,3 +273,93 @@ def leading_runs(bodies, maxrun=2):
             out.append(b[: len(b) // 2] + c + b[len(b) // 2:])
             out.append(b + c)
     return out
+
+
+# ---------------------------------------------------------------------------------
+# canonical URLs (C04): candidates are assembled from atoms; the component texts are
+# then filtered by the extracted Coq predicate canon_n, so generator and theorem agree
+# ---------------------------------------------------------------------------------
+CANON_LIT = list("abzAZ09-._~!$'()*,")
+CANON_ESC = ["%20", "%25", "%22", "%3C", "%00", "%7F", "%C3%A9", "%E2%82%AC", "%F0%9F%98%80", "%FF", "%5B", "%7B"]
+NONCANON = ["%7E", "%2f", "%c3%a9", " ", "é", "%41", "%", "%zz", "\"", "%2E"]
+
+
+def _cand(rng, atoms, maxn):
+    return "".join(rng.choice(atoms) for _ in range(rng.randint(0, maxn)))
+
+
+def canon_candidates(rng, n):
+    """returns n tuples (scheme, user, password, host, port, path, query, fragment) of
+    candidate component texts (None = absent)"""
+    ui_atoms = CANON_LIT + list("+&=;") + CANON_ESC + ["%40", "%3A", "%2F", "%3F", "%23"] + NONCANON[:4]
+    path_atoms = CANON_LIT + list("+&=;:@") + CANON_ESC + ["%2F", "%2B", "%3F", "%23"] + NONCANON[:5]
+    q_atoms = CANON_LIT + list("+&=;:@/?") + CANON_ESC + ["%26", "%3D", "%2B", "%3B", "%23"] + NONCANON[:5]
+    f_atoms = CANON_LIT + list("+&=;:@/?") + CANON_ESC + ["%23"] + NONCANON[:5]
+    hosts = ["example.com", "h", "a-b.c", "xn--bcher-kva.example", "a.b.c.", "127.0.0.1", "1.2.3", "[::1]",
+             "[2001:db8::ff00:42:8329]", "[::ffff:102:304]", "h_x", "0x7f.1", "x1"]
+    out = []
+    for _ in range(n):
+        sc = rng.choice(["http", "https", "ws", "wss", "ftp", "file", "x-y.z+1", "mailto", "", "", "git+ssh"])
+        auth = rng.random() < 0.75
+        user = password = host = port = None
+        if auth:
+            host = rng.choice(hosts)
+            r = rng.random()
+            if r < 0.25:
+                user = _cand(rng, ui_atoms, 4) or "u"
+            elif r < 0.45:
+                user, password = (_cand(rng, ui_atoms, 3) or "u"), _cand(rng, ui_atoms, 3)
+            elif r < 0.5:
+                user, password = "", _cand(rng, ui_atoms, 3) or "p"
+            if rng.random() < 0.4:
+                port = str(rng.choice([0, 1, 21, 80, 443, 8080, 65535, 8443, 81]))
+        segs = [_cand(rng, path_atoms, 3) for _ in range(rng.randint(0, 4))]
+        path = "/".join(segs)
+        if rng.random() < 0.7 or auth:
+            path = ("/" + path) if (path or rng.random() < 0.5) else ""
+        q = _cand(rng, q_atoms, 6) if rng.random() < 0.5 else ""
+        f = _cand(rng, f_atoms, 5) if rng.random() < 0.4 else ""
+        out.append((sc, user, password, host, port, path, q, f))
+    return out
+
+
+def compose_canonical(t):
+    sc, user, password, host, port, path, q, f = t
+    s = sc + ":" if sc else ""
+    if host is not None:
+        s += "//"
+        if user is not None:
+            s += user
+            if password is not None:
+                s += ":" + password
+            s += "@"
+        s += host
+        if port is not None:
+            s += ":" + port
+    s += path
+    if q:
+        s += "?" + q
+    if f:
+        s += "#" + f
+    return s
+
+
+DEFAULTS = {"http": "80", "https": "443", "ws": "80", "wss": "443", "ftp": "21"}
+
+
+def canonical_side_conditions(t):
+    """the URL-level conditions of the property statement that are not per-component"""
+    sc, user, password, host, port, path, q, f = t
+    if host is not None:
+        if port is not None and DEFAULTS.get(sc) == port:
+            return False
+        if path and not path.startswith("/"):
+            return False
+        if any(s in (".", "..") for s in path.split("/")):
+            return False
+    else:
+        if path.startswith("//"):
+            return False
+        if not sc and ":" in path.split("/")[0]:
+            return False
+    return True
